@@ -9,7 +9,7 @@ import (
 )
 
 func main() {
-	rtgen.Main("C06", "Router.check_c06",
+	rtgen.MainX("C06", "Router.check_c06",
 		"EXHAUSTIVE: all 5x5 (ingress,egress) link types x {no segment change, effective cross-over, "+
 			"peering hop out, peering hop in} x ingress {external, sibling, internal} x egress "+
 			"{external, sibling, unknown, internal(0)} x construction direction, each as a validly MACed, "+
